@@ -186,7 +186,15 @@ Inductive vocase :=
    Also used for the harness case kind "hop": the operation sits on the child node of a module that goes through
    the JSON text path Hugr.to_json -> Hugr.load_json; then deser / reser / f2 / kinds2 are taken from the operation
    found on the loaded node, raised also covers to_json / load_json raising, and json_ok says that the written
-   document holds the encoding ser, that the loaded HUGR writes the same document and kept the node's metadata *)
+   document holds the encoding ser, that the loaded HUGR writes the same document and kept the node's metadata.
+   Variant "wire" of that kind: a dataflow operation sits between Input and Output of a DFG built through the public
+   API, a value link on every value port and a state-order link on BOTH sides of its node; json_ok then also says that
+   the HUGR read back has exactly the links of the HUGR written, between the same ports, the state-order links as
+   state-order links (Hugr.links / outgoing_order_links / incoming_order_links).
+   Cases with an iteration mode ("it"): [o] (and [v], [t], [a] of CVal / CTy / CArg) is the term as requested from the
+   constructor -- the walk of the object built with every `Iterable`-typed constructor argument given as a list --,
+   everything observed comes from the object built with those arguments handed over as a generator / iterator / map
+   object / tuple / re-iterable non-sequence; raised also covers that constructor raising. *)
 | COp (tab : hp_type_tab) (o : op') (raised : bool) (ser : sop') (deser : op') (reser : sop') (f1 f2 : facts)
       (kinds1 kinds2 : list N) (json_ok : bool)
 (* a sugar tag operation against ops.Tag with the same tag and sum: encodings, facts *)
